@@ -17,6 +17,10 @@ type Effects struct {
 	Locks   map[string]bool
 	Unknown bool
 	Why     string
+	// Unwinds: the function may leave by a panic that is recovered further up the stack (contract flag "unwinds" on
+	// the function that raises it, closed over the call graph): what a caller holds at the call must be given back
+	// by its deferred calls
+	Unwinds bool
 }
 
 func newEffects() *Effects { return &Effects{Writes: map[string]bool{}, Locks: map[string]bool{}} }
@@ -41,6 +45,10 @@ func (e *Effects) merge(o *Effects) bool {
 	if o.Unknown && !e.Unknown {
 		e.Unknown = true
 		e.Why = o.Why
+		ch = true
+	}
+	if o.Unwinds && !e.Unwinds {
+		e.Unwinds = true
 		ch = true
 	}
 	return ch
@@ -202,6 +210,9 @@ func (w *World) graph() *callGraph {
 		// must not keep what it knew about them across the call
 		if n.fi != nil && w.Specs != nil {
 			if ct := w.Specs.ByKey[n.fi.Key]; ct != nil {
+				if ct.Flags["unwinds"] != "" {
+					n.direct.Unwinds = true
+				}
 				for _, at := range ct.Ats {
 					for _, cl := range at.Clauses {
 						if cl.Kind != "ghost" {
